@@ -19,12 +19,17 @@ vars == <<row>>
 
 ByteOps == {"delete", "duplicate", "replace", "insert", "truncate_after", "swap_with_next", "flip_bit"}
 Positions == {"first", "last", "every", "delimiters"}
-JsonOps == {"replace_value", "remove_member", "duplicate_member", "wrap_in_array", "nest_deeply"}
+JsonOps == {"replace_value", "remove_member", "duplicate_member", "wrap_in_array", "nest_deeply", "cut_string"}
+\* cut_string: a string VALUE inside the document is shortened while the document stays well-formed JSON -- to its first
+\* Keep characters, or to the part up to its last delimiter (, ; : / # ? .) plus Keep characters (a data URL, DID URL or
+\* token whose last component is empty or a few characters long)
+Keeps == 0..4
 
 Rows == [level : {"bytes"}, op : {"delete", "duplicate", "truncate_after", "swap_with_next", "flip_bit"}, pos : Positions]
         \cup [level : {"bytes"}, op : {"replace", "insert"}, pos : Positions, sym : Symbols]
         \cup [level : {"json"}, op : {"replace_value"}, with : JsonValues]
         \cup [level : {"json"}, op : {"remove_member", "duplicate_member", "wrap_in_array", "nest_deeply"}]
+        \cup [level : {"json"}, op : {"cut_string"}, at : {"start", "last_delimiter"}, keep : Keeps]
         \cup [level : {"seed"}]                         \* the unmutated seed itself: must be accepted
 
 Init == row \in Rows
